@@ -272,6 +272,14 @@ void check_mtu_and_integrity(World& w)
 	R().count("tcp_segments_of_exactly_mtu", full);
 }
 
+// a stall of a connection whose connector is behind a NAT is also a violation of C13 ("a TCP connection established
+// through a NAT works in both directions ... payload, ordering and timing unchanged")
+void stall_violation(World& w, std::string const& key, std::string const& detail)
+{
+	R().violation("C06", key, detail);
+	if (w.nat) R().violation("C13", "tcp-through-nat-stalls:" + key, detail);
+}
+
 void classify_stall(World& w, Conn& c, Side& rd, Side& wr, char const* dir)
 {
 	// rd reads what wr writes. Called at quiescence with both sockets open.
@@ -282,7 +290,7 @@ void classify_stall(World& w, Conn& c, Side& rd, Side& wr, char const* dir)
 		API(av = rd.sock->available(ec));
 		if (!ec && av > 0)
 		{
-			R().violation("C06", "reader-not-woken", who + fmt(": quiescent with a read pending although %zu bytes are available (received %" PRIu64 " of %" PRIu64 " accepted)"
+			stall_violation(w, "reader-not-woken", who + fmt(": quiescent with a read pending although %zu bytes are available (received %" PRIu64 " of %" PRIu64 " accepted)"
 				, av, rd.rx, wr.credited));
 			return;
 		}
@@ -302,13 +310,13 @@ void classify_stall(World& w, Conn& c, Side& rd, Side& wr, char const* dir)
 		if (sent_count[d.first] <= d.second) { unsent = true; useq = d.first; break; }
 	if (rd.rx < wr.credited)
 	{
-		R().violation("C06", unsent ? "dropped-segment-never-resent" : "bytes-not-delivered"
+		stall_violation(w, unsent ? "dropped-segment-never-resent" : "bytes-not-delivered"
 			, who + fmt(": quiescent with %" PRIu64 " of %" PRIu64 " accepted bytes delivered%s", rd.rx, wr.credited
 				, unsent ? fmt("; segment %" PRIu64 " was dropped and not transmitted again", useq).c_str() : ""));
 		return;
 	}
 	if (wr.w_pending)
-		R().violation("C06", unsent ? "dropped-segment-never-resent" : "writer-blocked-nothing-in-flight"
+		stall_violation(w, unsent ? "dropped-segment-never-resent" : "writer-blocked-nothing-in-flight"
 			, who + fmt(": quiescent with a write outstanding (%" PRIu64 " of %" PRIu64 " bytes accepted, all delivered)", wr.credited, wr.goal));
 }
 
@@ -374,6 +382,7 @@ void account(World& w, bool nontrivial_extra = false)
 	r.count("retransmissions_on_wire", s.retrans);
 	r.count("out_of_order_arrivals", s.ooo);
 	if (s.drops) r.count("cases_with_queue_drop");
+	if (s.drops && w.nat) r.count("cases_with_queue_drop_and_connector_behind_nat");
 	if (s.fault_drops + s.fault_delays) r.count("cases_with_fault_action");
 	if (s.retrans) r.count("cases_with_retransmission");
 	if (s.ooo) r.count("cases_with_out_of_order_arrival");
@@ -436,6 +445,12 @@ void case_c06(Args const& a, std::uint64_t c)
 	w.finite = rng.coin(3, 4);
 	w.desc = fmt("C06 %s mtu=%d", w.finite ? "finite" : "unbounded", w.mtu);
 	route_setup(w, w.finite, true, 3);
+	{
+		// the connector behind a NAT (the hop sits behind its own outgoing queues, in front of the network and of
+		// the acceptor's incoming queues): drops reported from behind the NAT carry the rewritten source
+		bool const nat = rng.coin(1, 5) || a.geti("nat", 0) != 0;
+		if (nat) { w.net.nat_ext[w.A] = addr("66.6.6.6"); w.nat = true; w.desc += " client behind NAT"; }
+	}
 	R().cur_desc = w.desc;
 	w.build();
 	Conn& cn = w.add_conn();
